@@ -69,6 +69,10 @@ def check(ctx: Ctx) -> None:
     # "keeps the affected protection in force": what a marker with an unusable payload protects is a path the listing can match
     from .c05 import r2 as c05_r2
     ctx.shared(c05_r2, "C05.R2", "C07.R16", "a marker that cannot be read in full still protects the file it was written for")
+    # "a storage failure raises and deletes nothing": the listing the sweep iterates is complete BEFORE the first deletion - it is
+    # materialised inside the (retried) listing operation, not a generator whose later pages are fetched between deletes
+    from .c20 import r8_work
+    r8_work(ctx, "C07.R17")
 
 
 def _assigns(ctx: Ctx, f: FunctionInfo, h: ast.ExceptHandler, name: str, value: object) -> bool:
@@ -273,8 +277,25 @@ def r3(ctx: Ctx) -> None:
     mem = [b for b in g.nodes if b.kind == "branch" and isinstance(b.ast, ast.Compare)
            and isinstance(b.ast.ops[0], (ast.NotIn, ast.In)) and mp in names_in(b.ast.comparators[0])]
     ok = bool(esc) and bool(mem)
+
+    def _screened(m: Node, e: Node) -> bool:
+        """two-pass form: the membership test runs in a loop over a list that an EARLIER loop filled, and every append to that list
+        is dominated by the guard (only entries that passed it are classified)"""
+        loops_m = [fr.node for fr in m.frames if fr.kind == "loop"]
+        if not loops_m or not isinstance(loops_m[-1], ast.For):
+            return False
+        it = loops_m[-1].iter
+        accs: Set[str] = set()
+        if isinstance(it, ast.Name):
+            accs = {it.id}
+        elif isinstance(it, ast.Call) and id(it) in g.inline_returns:
+            accs = {x.id for x, _n in g.inline_returns[id(it)] if isinstance(x, ast.Name)}
+        apps = [c for c in g.calls() if isinstance(c.ast, ast.Call) and isinstance(c.ast.func, ast.Attribute) and c.ast.func.attr == "append"
+                and isinstance(c.ast.func.value, ast.Name) and c.ast.func.value.id in accs]
+        return bool(accs) and bool(apps) and all(e.id in dom[a.id] for a in apps)
+
     for m in mem:
-        ok = ok and all(e.id in dom[m.id] for e in esc)
+        ok = ok and all(e.id in dom[m.id] or _screened(m, e) for e in esc)
     raises = True
     for e in esc:
         t = edge_target(g, e, "true")
